@@ -10,7 +10,8 @@ LEVEL = "exploration"
 DESIGN_REF = "DESIGN.md section 5, C05 (bounded liveness)"
 TECHNIQUE = "deterministic simulation: bounded liveness (completion within 2B+10 steps once absence faults stop) on a constructive feasible family; status/termination invariants on all runs"
 RULE = ("three seeded families: general models (termination, max_time and status clauses; a pDESy exception inside "
-        "simulate() is a violation), feasible-F (acyclic, no facility task, no component-bound auto task, every non-auto "
+        "simulate() is a violation), feasible-F (acyclic, no facility task, component-bound auto tasks only with a component and "
+        "a workplace of their own that can always take it, every non-auto "
         "unfinished task has an eligible worker with a finite absence list, FF/SF-input tasks have private workers) run with "
         "max_time = 2B+10 where B = last absence index+1 + sum(ceil(rem/min skill)+3) -> must report SUCCESS, and infeasible-I "
         "(feasible-F with one task made unservable) -> must not report SUCCESS. Non-trivial = feasible/infeasible family run "
@@ -23,7 +24,7 @@ LEVEL_TEXT = ("Bounded liveness by seeded search: once absence faults have stopp
               "stated step bound; plus termination/status invariants on every run of a general family. A clean run is evidence, not proof.")
 LEVEL_NOTE = "Trusted: the feasibility construction and the bound B (argued in DESIGN section 5); sampling evidence only."
 PROBES = ["family_general", "family_feasible", "family_infeasible", "feasible_with_FF", "feasible_with_SF", "feasible_with_SS",
-          "one_step_predecessor_SS", "cut_off_by_max_time", "feasible_with_absence", "zero_work_task", "infeasible_not_success"]
+          "one_step_predecessor_SS", "feasible_auto_task_with_private_workplace", "feasible_without_any_worker", "cut_off_by_max_time", "feasible_with_absence", "zero_work_task", "infeasible_not_success"]
 
 
 def budget(tier):
@@ -56,6 +57,46 @@ def bound(model, cfg):
     return B
 
 
+def feasible_ok(m):
+    """Independent re-validation of the feasible-F premises on the model a run actually executes (a shrunk or hand-edited
+    replay that left the family makes no completion claim)."""
+    st = Static(m)
+    names = [st.name(t) for t in st.order]
+    if len(set(names)) != len(names) or m.get("ext_preds"):
+        return False
+    if any(not (a < b) for (a, b, k) in m["deps"]):
+        return False
+    elig = {}
+    for i, tid in enumerate(st.order):
+        t = st.tasks[tid]
+        if t.get("nf") or t.get("sub"):
+            return False
+        if st.auto(tid):
+            if t.get("comp") is not None:
+                cid = st.comp_order[t["comp"]]
+                if st.comp_tasks[cid] != [tid] or st.parents[cid] or st.children[cid]:
+                    return False
+                size = m["comps"][t["comp"]].get("size", 1.0)
+                if not any(wp["targets"] == [i] and not wp.get("inputs") and wp.get("cap", 1.0) >= size
+                           and any(f["skills"].get(st.name(tid), 0.0) > 1e-10 for f in wp["facs"]) for wp in m["wps"]):
+                    return False
+            continue
+        if st.exempt(tid):
+            continue
+        el = G.eligible_workers(m, i)
+        if not el:
+            return False
+        elig[i] = set(w["id"] for w in el)
+    for wp in m["wps"]:
+        if len(wp["targets"]) != 1 or not st.auto(st.order[wp["targets"][0]]):
+            return False
+    for (a, b, k) in m["deps"]:
+        if k in (G.FF, G.SF) and b in elig:
+            if any(j != b and (e & elig[b]) for j, e in elig.items()):
+                return False
+    return True
+
+
 def gen(rng, tier):
     r = rng.random()
     if r < 0.4:
@@ -67,6 +108,11 @@ def gen(rng, tier):
         focus["kinds"] = [k for k in (0, 1, 2, 3) if rng.random() < 0.6] or [rng.choice([1, 2, 3])]
     if rng.random() < 0.3:
         focus["same_step"] = True
+    if rng.random() < 0.35:
+        focus["auto_private_wp"] = True
+        focus["auto"] = True
+    if rng.random() < 0.06:
+        focus["all_auto"] = True
     p = G.gen_profile(rng, focus)
     m = G.gen_feasible(rng, p)
     cfg = G.gen_cfg(rng, p)
@@ -90,6 +136,7 @@ def gen(rng, tier):
     if fam == "feasible" and rng.random() < 0.3:
         # the completion clause must also hold for a run that follows an interrupted / earlier run on the same object
         C.maybe_history(rng, spec, 1.0, reload_prob=0.2)
+        C.maybe_org_edit(rng, spec, 0.5)  # (only with a state reset) the first call ran on a model that lacked a target / had a worker elsewhere
         # time may continue from the first call: a generous limit costs no detection (a deadlock never terminates)
         cfg["max_time"] = 2 * cfg["max_time"] + 20
     return spec
@@ -133,9 +180,19 @@ def run(spec):
     tr = C.run_forward(spec, want_snap=True, snap_phases=("recorded",))
     res = C.base_result(tr)
     fam = spec.get("family", "general")
+    m = spec["model"]
+    if fam == "feasible":
+        B_ = bound(m, spec["cfg"]) if feasible_ok(m) else None
+        need = None if B_ is None else ((2 * B_ + 10) if spec.get("history") is None else 2 * (2 * B_ + 10) + 20)
+        if need is None or spec["cfg"].get("max_time", 0) < need:
+            fam = "general"  # not (or no longer, after shrinking) a member of the family: no completion claim
+    elif fam == "infeasible":
+        st_ = Static(m)
+        u = spec.get("unservable")
+        if u not in st_.tasks or st_.auto(u) or st_.exempt(u) or G.eligible_workers(m, st_.tidx[u]):
+            fam = "general"
     res.count("family_" + fam)
     check_always(res, tr)
-    m = spec["model"]
     kinds = set(k for (_, _, k) in m["deps"])
     if fam == "feasible":
         for k in kinds:
@@ -154,6 +211,10 @@ def run(spec):
         for t in m["tasks"]:
             if t["work"] == 0.0:
                 res.count("zero_work_task")
+            if t.get("auto") and t.get("comp") is not None:
+                res.count("feasible_auto_task_with_private_workplace")
+        if not any(tm["workers"] for tm in m["teams"]):
+            res.count("feasible_without_any_worker")
         if tr.out.ok and int(tr.project.status) != 1:
             unfinished = {t.ID: SNAME.get(int(t.state)) for t in tr.ix.tasks if int(t.state) != FINISHED}
             ks = "+".join(sorted(G.KIND_NAME[k] for k in kinds)) or "nodep"
